@@ -39,7 +39,7 @@ def _file_case(a):
         d = dfax.profiles(b)[0].file
         for r in case['records']:
             f = r['fields']
-            if r['class'] != 'file' or f.get('profile') != pname:
+            if r['class'] != 'file' or (f.get('profile') or f.get('label')) != pname:
                 continue
             name = f['name'].encode()
             if 'disconnected path' in f.get('info', '') and not name.startswith(b'/'):
@@ -58,7 +58,7 @@ def _file_case(a):
             out.append(('covered' if not missing else 'not-covered', ''.join(sorted(set(missing))), r))
     # a record whose profile got no block at all was dropped on the way: nothing covers it
     for r in case['records']:
-        if r['class'] == 'file' and r['fields'].get('profile') not in case['out']:
+        if r['class'] == 'file' and (r['fields'].get('profile') or r['fields'].get('label')) not in case['out']:
             out.append(('not-covered', r['fields'].get('requested_mask', ''), r))
     return out
 
